@@ -61,6 +61,9 @@ PROP = dict(
         "Ed25519 key expansion is not modelled (the 32-byte Ed25519 seed is compared)",
     ],
     partial=[
+        "the code cells of the twelve versions are pinned to the published hashes by the spec table publishedCodeHash compared with "
+        "wallet.GetCodeByVer on every run (op w.codehash; the same hashes stand in abi/interfaces.go); code_hashes_pairwise_distinct "
+        "/ code_hash_table_ok instantiate the distinctness hypothesis on that table - the cells themselves stay inputs of the model",
         "'different key / version / workchain / sub-wallet / network give different addresses' is FALSE as literally stated: "
         "the option changes listed in address_exceptions (v5r1 and v1/v2 ignore the sub-wallet id; v1/v2/v3/v4/highload ignore the "
         "network id; absent option = explicit default; workchains equal modulo 2^32) do not change the address. What is proved "
